@@ -3,6 +3,7 @@ package jsonrpc
 import (
 	"context"
 	"encoding/hex"
+	"errors"
 	"fmt"
 	"net/http"
 	"strings"
@@ -37,6 +38,39 @@ type API struct {
 	}
 }
 
+// knownErrors are the errors of the DA interface callers tell apart with errors.Is.
+var knownErrors = []error{
+	da.ErrBlobNotFound,
+	da.ErrBlobSizeOverLimit,
+	da.ErrTxTimedOut,
+	da.ErrTxAlreadyInMempool,
+	da.ErrTxIncorrectAccountSequence,
+	da.ErrHeightFromFuture,
+	da.ErrContextDeadline,
+}
+
+// restoreKnownError gives an error received from the server its identity back. Errors cross the wire
+// as text only, so errors.Is(err, da.ErrTxTimedOut) and friends would never hold on the client side
+// and callers would classify a DA layer behind the proxy differently from the same DA layer in-process.
+func restoreKnownError(err error) error {
+	if err == nil {
+		return nil
+	}
+	msg := err.Error()
+	for _, known := range knownErrors {
+		if errors.Is(err, known) {
+			return err
+		}
+		if known == da.ErrContextDeadline && strings.Contains(msg, context.DeadlineExceeded.Error()) {
+			continue // Go's own "context deadline exceeded" is not the DA layer's deadline error
+		}
+		if strings.Contains(msg, known.Error()) {
+			return fmt.Errorf("%w (via rpc: %s)", known, msg)
+		}
+	}
+	return err
+}
+
 // Get returns Blob for each given ID, or an error.
 func (api *API) Get(ctx context.Context, ids []da.ID, _ []byte) ([]da.Blob, error) {
 	api.Logger.Debug("Making RPC call", "method", "Get", "num_ids", len(ids), "namespace", string(api.Namespace))
@@ -48,7 +82,7 @@ func (api *API) Get(ctx context.Context, ids []da.ID, _ []byte) ([]da.Blob, erro
 		}
 		api.Logger.Error("RPC call failed", "method", "Get", "error", err)
 		// Wrap error for context, potentially using the translated error from the RPC library
-		return nil, fmt.Errorf("failed to get blobs: %w", err)
+		return nil, fmt.Errorf("failed to get blobs: %w", restoreKnownError(err))
 	}
 	api.Logger.Debug("RPC call successful", "method", "Get", "num_blobs_returned", len(res))
 	return res, nil
@@ -133,6 +167,7 @@ func (api *API) Submit(ctx context.Context, blobs []da.Blob, gasPrice float64, _
 			return res, context.Canceled
 		}
 		api.Logger.Error("RPC call failed", "method", "Submit", "error", err, "namespace", api.Namespace)
+		err = restoreKnownError(err)
 	} else {
 		api.Logger.Debug("RPC call successful", "method", "Submit", "num_ids_returned", len(res))
 	}
@@ -186,6 +221,7 @@ func (api *API) SubmitWithOptions(ctx context.Context, inputBlobs []da.Blob, gas
 			return res, context.Canceled
 		}
 		api.Logger.Error("RPC call failed", "method", "SubmitWithOptions", "error", err)
+		err = restoreKnownError(err)
 	} else {
 		api.Logger.Debug("RPC call successful", "method", "SubmitWithOptions", "num_ids_returned", len(res))
 	}
